@@ -581,15 +581,15 @@ _SS = _c18_methods(SPOOLED_STRING, [
      'result': 'Int', 'tie_theorem': 'C18.src_ss_traverse_eq_model'},
     {'py': 'seek', 'name': 'seek0', 'params': {'pos': 'Int'}, 'fixed': {'mode': 0}, 'result': 'Int',
      'tie_theorem': 'C18.src_ss_seek0_eq_model'},
-    {'py': 'len', 'name': 'len', 'params': {}, 'result': 'Int', 'tie_theorem': 'C18.src_ss_len_closed'},
+    {'py': 'len', 'name': 'len', 'params': {}, 'result': 'Int', 'tie_theorem': 'C18.src_ss_len_eq_model'},
     {'py': 'seek', 'name': 'seek', 'params': {'pos': 'Int', 'mode': 'Int'}, 'result': 'Int',
-     'tie_theorem': 'C18.src_ss_seek_bad_mode'},
+     'tie_theorem': 'C18.src_ss_seek_end_eq_model'},
     {'py': 'rollover', 'name': 'rollover', 'params': {}, 'result': 'None',
-     'tie_theorem': 'C18.src_ss_rollover_rolled'},
+     'tie_theorem': 'C18.src_ss_rollover_eq_model'},
     {'py': 'write', 'name': 'write', 'params': {'s': 'Str'}, 'result': 'None',
-     'tie_theorem': 'C18.src_ss_write_closed'},
+     'tie_theorem': 'C18.src_ss_write_eq_model'},
     {'py': 'readline', 'name': 'readline', 'params': {'length': 'Option Int'}, 'result': 'Str',
-     'tie_theorem': 'C18.src_ss_readline_closed'},
+     'tie_theorem': 'C18.src_ss_readline_eq_model'},
 ])
 
 SPECS = {
